@@ -225,10 +225,11 @@ func RandFile(rng *rand.Rand, o FileOpts) *File {
 		if o.ExtraField && rng.Intn(4) == 0 {
 			p := make([]byte, rng.Intn(6))
 			rng.Read(p)
-			for i := range p { // keep the reader's prefix search unambiguous
-				if p[i] == 'B' {
-					p[i] = 'b'
-				}
+			if rng.Intn(3) == 0 {
+				// a payload that contains the bytes of a BC subfield header:
+				// the extra field is a sequence of subfields, and only a
+				// subfield named BC of length 2 carries the block size
+				p = append(p, 'B', 'C', 2, 0, byte(rng.Intn(256)), byte(rng.Intn(128)))
 			}
 			if rng.Intn(2) == 0 {
 				mo.ExtraBefore = oracle.Subfield('X', 'Y', p)
